@@ -4,6 +4,11 @@ property's check (and the checks of closely related properties) against it with 
 undo, and record the outcome under <verif-root>/seeded/<prop>-<variant>/."""
 import json, os, shutil, subprocess, sys, time
 VR = sys.argv[1]
+# SEED_ISO=<name>: run the checks in the isolated copy /root/scratch/iso-<name> (tools/iso.sh) instead of /verif + /repo
+ISO = os.environ.get("SEED_ISO")
+CV = f"/root/scratch/iso-{ISO}/verif" if ISO else VR
+CR = f"/root/scratch/iso-{ISO}/repo" if ISO else "/repo"
+CENV = dict(os.environ, VERIF_REPO=CR)
 RELATED = {"C05": ["C04", "C09", "C07"], "C04": ["C05"], "C09": ["C05"], "C07": ["C03", "C02"], "C15": ["C04"], "C13": [],
            "C20": ["C18"], "C19": ["C18"], "C11": [], "C12": [], "C16": ["C04"], "C14": ["C10"], "C10": ["C14"], "C17": [], "C18": [],
            "C01": ["C02"], "C02": ["C01"], "C03": ["C19"], "C06": ["C07"], "C08": ["C03"]}
@@ -24,26 +29,27 @@ for item in sys.argv[2:]:
     confirmed = c.stdout.strip().split("\n")[-1] == "CONFIRMED"
     results = {}
     if confirmed:
-        st = sh(["git", "-C", "/repo", "status", "--short"]).stdout.strip()
+        st = sh(["git", "-C", CR, "status", "--short"]).stdout.strip()
         if st:
             print("repo not clean, abort", st); sys.exit(2)
         EVBAK = "/root/.evidence_backup"
-        shutil.rmtree(EVBAK, ignore_errors=True); shutil.copytree(f"{VR}/evidence", EVBAK)   # evidence must describe the unchanged tree
-        a = sh(["git", "-C", "/repo", "apply", f"{out}/patch.diff"])
+        shutil.rmtree(EVBAK, ignore_errors=True); shutil.copytree(f"{CV}/evidence", EVBAK)   # evidence must describe the unchanged tree
+        a = sh(["git", "-C", CR, "apply", f"{out}/patch.diff"])
         if a.returncode != 0:
             results["apply"] = a.stdout
         else:
             try:
                 for p in [prop] + [x for x in RELATED.get(prop, []) if os.path.exists(f"{VR}/lean/SnowVerif/Theorems/{x}.lean")]:
-                    r = sh([f"{VR}/check", p, "--tier", "quick"], cwd=VR)
+                    r = sh([f"{CV}/check", p, "--tier", "quick"], cwd=CV, env=CENV)
                     lines = [l for l in r.stdout.split("\n") if l.startswith("VIOLATION") or l.startswith("KNOWN") or l.startswith(p + " quick")]
                     results[p] = {"rc": r.returncode, "lines": lines}
                     rp = next((l.split("replay=")[1].split()[0] for l in lines if l.startswith("VIOLATION")), None)
+                    if rp and ISO: rp = rp.replace("/verif/", CV + "/", 1) if not rp.startswith(CV) else rp
                     if rp and os.path.exists(rp):
                         shutil.copy(rp, f"{out}/replay-{p}.json")
             finally:
-                sh(["git", "-C", "/repo", "checkout", "--", "."])
-                shutil.rmtree(f"{VR}/evidence", ignore_errors=True); shutil.copytree(EVBAK, f"{VR}/evidence")
+                sh(["git", "-C", CR, "checkout", "--", "."])
+                shutil.rmtree(f"{CV}/evidence", ignore_errors=True); shutil.copytree(EVBAK, f"{CV}/evidence")
     meta = {"breaks_property": prop, "variant": var, "confirmed_in_scratch_worktree": confirmed,
             "confirm_output": c.stdout.strip().split("\n")[-2:], "check_results": results,
             "detected_by_own_check": bool(results.get(prop, {}).get("rc")),
